@@ -1,6 +1,6 @@
 (* Lmmm/PreserveProg.v — C02 for functions, the function list, dsp, and every run length. *)
 From Coq Require Import List ZArith NArith Bool Lia Arith.
-From Mimium Require Import StateTree.Model Lmmm.Syntax Lmmm.Ref Lmmm.Compile Lmmm.Machine Lmmm.Wf Lmmm.Spec
+From Mimium Require Import StateTree.Model Lmmm.Syntax Lmmm.Ref Lmmm.Compile Lmmm.Machine Lmmm.Wf Lmmm.HotSwap Lmmm.Spec
   Lmmm.Base Lmmm.Layout Lmmm.LayoutProg Lmmm.Prims Lmmm.Flat Lmmm.Preserve Lmmm.Sim.
 Import ListNotations.
 Local Open Scope N_scope.
